@@ -76,6 +76,11 @@ func checkTreeAfterFault(r *ev.Run, rng *rand.Rand, st *memory.Storage, root *tn
 			r.Eval(1)
 			exp := want[off:min(off+n, size)]
 			clean := err == nil || (errors.Is(err, io.EOF) && off+got == size && got == len(exp))
+			if !clean && errors.Is(err, io.EOF) && off+got < size {
+				// io.ReaderAt: io.EOF = the input ends here; never before the true size
+				viol("readat-eof-before-end/tree", op, "%s: returned (%d, io.EOF): end of file reported at offset %d, the schema denotes %d bytes", where, got, off+got, size)
+				return false, false
+			}
 			if !clean {
 				return true, true
 			}
